@@ -17,3 +17,99 @@ package cache
 //@   ensures isFound <==> old(bound(this, key)) != 0
 //@   ensures ref(value) == old(bound(this, key))
 //@   modifies nothing
+
+// ---- C15: lock discipline of the concurrent wrapper. The LRU itself is "not thread safe": every method that touches
+// the eviction list or the item map (Get moves the element to the front, so it is one of them) needs the wrapper's lock
+// exclusively; the pure look-ups need it at least shared. gLruGuard[lru] is the mutex that guards an LRU (registered by
+// the only constructor of the wrapper; the wrapper's fields are unexported). The LRU's own code (container/list) is
+// outside the verified subset: its methods are assumed to change nothing but the heap reachable from the LRU.
+//@ ghost var gLruGuard (Array Int Int)
+//@ spec func lruExclusive(l) = wlockcount(sel(gLruGuard, ref(l))) > 0
+//@ spec func lruShared(l) = wlockcount(sel(gLruGuard, ref(l))) > 0 || rlockcount(sel(gLruGuard, ref(l))) > 0
+//@ spec func guardedMap(c) = c != nil && c.lru != nil && c.lock != nil && sel(gLruGuard, ref(c.lru)) == ref(c.lock)
+
+//@ func NewLRU(size, onEvict) (r, err)
+//@   assumed
+//@   ensures (r == nil) <==> (err != nil)
+//@   ensures r != nil ==> fresh(r)
+//@   modifies nothing
+
+//@ func (c *LRU) Add(key, value)
+//@   assumed
+//@   requires[changes-the-list-needs-the-lock-exclusively]{C15} lruExclusive(c)
+//@   modifies heap
+//@ func (c *LRU) AddIfAbsent(key, value) priorValue
+//@   assumed
+//@   requires[changes-the-list-needs-the-lock-exclusively]{C15} lruExclusive(c)
+//@   modifies heap
+//@ func (c *LRU) Get(key) (value, isFound)
+//@   assumed
+//@   requires[moves-the-element-to-the-front-needs-the-lock-exclusively]{C15} lruExclusive(c)
+//@   modifies heap
+//@ func (c *LRU) Remove(key) isFound
+//@   assumed
+//@   requires[changes-the-list-needs-the-lock-exclusively]{C15} lruExclusive(c)
+//@   modifies heap
+//@ func (c *LRU) Purge()
+//@   assumed
+//@   requires[changes-the-list-needs-the-lock-exclusively]{C15} lruExclusive(c)
+//@   modifies heap
+//@ func (c *LRU) Contains(key) ok
+//@   assumed
+//@   requires[reads-the-item-map-needs-the-lock]{C15} lruShared(c)
+//@   modifies nothing
+//@ func (c *LRU) Keys() r
+//@   assumed
+//@   requires[walks-the-list-needs-the-lock]{C15} lruShared(c)
+//@   modifies nothing
+//@ func (c *LRU) Len() r
+//@   assumed
+//@   requires[reads-the-list-needs-the-lock]{C15} lruShared(c)
+//@   modifies nothing
+
+//@ func NewLRUCacheMap(size) r
+//@   props C15
+//@   sets gLruGuard = upd(gLruGuard, ref(cast(dynptr(r), LruCacheMap).lru), ref(cast(dynptr(r), LruCacheMap).lock))
+//@   ensures[the-lru-is-guarded-by-the-wrappers-own-new-lock]{C15} r != nil ==> typeis(r, "*core/hotspot/cache.LruCacheMap") && fresh(cast(dynptr(r), LruCacheMap)) && fresh(cast(dynptr(r), LruCacheMap).lock) && fresh(cast(dynptr(r), LruCacheMap).lru) && guardedMap(cast(dynptr(r), LruCacheMap))
+//@   modifies gLruGuard
+
+//@ func (c *LruCacheMap) Add(key, value)
+//@   props C15
+//@   requires guardedMap(c)
+//@   ensures[lock-released-on-return]{C15} lockframe()
+//@   modifies heap
+//@ func (c *LruCacheMap) AddIfAbsent(key, value) priorValue
+//@   props C15
+//@   requires guardedMap(c)
+//@   ensures[lock-released-on-return]{C15} lockframe()
+//@   modifies heap
+//@ func (c *LruCacheMap) Get(key) (value, isFound)
+//@   props C15
+//@   requires guardedMap(c)
+//@   ensures[lock-released-on-return]{C15} lockframe()
+//@   modifies heap
+//@ func (c *LruCacheMap) Remove(key) isFound
+//@   props C15
+//@   requires guardedMap(c)
+//@   ensures[lock-released-on-return]{C15} lockframe()
+//@   modifies heap
+//@ func (c *LruCacheMap) Contains(key) ok
+//@   props C15
+//@   requires guardedMap(c)
+//@   ensures[lock-released-on-return]{C15} lockframe()
+//@   modifies nothing
+//@ func (c *LruCacheMap) Keys() r
+//@   props C15
+//@   requires guardedMap(c)
+//@   ensures[lock-released-on-return]{C15} lockframe()
+//@   modifies nothing
+//@ func (c *LruCacheMap) Len() r
+//@   props C15
+//@   requires guardedMap(c)
+//@   ensures[lock-released-on-return]{C15} lockframe()
+//@   modifies nothing
+//@ func (c *LruCacheMap) Purge()
+//@   props C15
+//@   requires guardedMap(c)
+//@   ensures[lock-released-on-return]{C15} lockframe()
+//@   modifies heap
